@@ -198,10 +198,40 @@ var c15 = gen.Register(&gen.Check[caseC15]{
 			}
 			// the buffers stay the caller's after the call returned: later calls (with other, shorter arguments that
 			// would fit into these buffers) must not touch them either
-			for k, fn := range []string{"scalar", "ro", "nu"} {
-				later := []byte("later-dst-0123456789")[:5+5*k]
-				if _, pnc := callHash(fn, []byte{byte(k)}, later); pnc != nil {
+			// ... and later calls of another SHAPE: what a call does with something an earlier call left behind depends on its own
+			// path (a tag of 49 or 255 bytes, an oversize tag that is hashed into a scratch area first, a message of several blocks);
+			// in half of the cases these come first, directly after the call under test (the next call sees what that call left)
+			shape := len(msgData)*7 + len(dstData)*3 + int(c.Cond%5)
+			shortLater := func() error {
+				for k, fn := range []string{"scalar", "ro", "nu"} {
+					later := []byte("later-dst-0123456789")[:5+5*k]
+					if _, pnc := callHash(fn, []byte{byte(k)}, later); pnc != nil {
+						return gen.Fail(c.Call+"/panic", "panic in a later call: %v", pnc)
+					}
+				}
+				return nil
+			}
+			if shape/10%2 == 1 {
+				if err := shortLater(); err != nil {
+					return err
+				}
+			}
+			laterLong := make([]byte, []int{49, 255, 256, 300, 1000}[shape%5])
+			for i := range laterLong {
+				laterLong[i] = byte('a' + i%23)
+			}
+			laterMsg := make([]byte, []int{0, 200}[shape/5%2])
+			o.ClassIf(len(laterLong) > 255, "later-call-with-oversize-dst")
+			o.ClassIf(len(laterLong) <= 255, "later-call-with-long-dst")
+			for _, fn := range []string{"scalar", "ro", "nu"} {
+				if _, pnc := callHash(fn, laterMsg, laterLong); pnc != nil {
 					return gen.Fail(c.Call+"/panic", "panic in a later call: %v", pnc)
+				}
+			}
+			if shape/10%2 == 0 {
+				o.Class("other-shape-directly-after")
+				if err := shortLater(); err != nil {
+					return err
 				}
 			}
 			if i, ok := gd.intact(); !ok {
